@@ -195,7 +195,7 @@ def exclusive_regions(b, bi, a_bb, o_bb):
     return ra - ro, ro - ra
 
 
-def reach_ps(b, starts, limit=60000):
+def reach_ps(b, starts, limit=60000, stop=()):
     """path-sensitive forward reachability: remembers, along each path, bools assigned a literal and the
     variant of Option/Result locals built by an aggregate (through moves), and follows only the matching
     side of a switch on them.  Falls back to plain reachability when the state space explodes."""
@@ -237,6 +237,13 @@ def reach_ps(b, starts, limit=60000):
                 # `x?`: Ok / Some continue (ControlFlow::Continue = 0), Err / None break (= 1)
                 v = e[('v', a0['pl']['l'])]
                 br = (1 - v) if nm.startswith('<std::option::Option<') else v
+            if br is None and T.ERR_ADAPTORS.search(nm) and a0 is not None and a0['k'] in ('copy', 'move') and not a0['pl']['p'] and ('v', a0['pl']['l']) in e:
+                # variant-preserving adaptors: `r.map_err(f)`, `r.map(f)`, `o.map(f)`, `o.copied()`, `r.context(..)` keep Ok/Err resp. Some/None;
+                # `o.ok_or(..)`, `o.ok_or_else(..)`, `o.context(..)` turn Some into Ok (0) and None into Err (1)
+                v = e[('v', a0['pl']['l'])]
+                from_opt = b.locals[a0['pl']['l']].lstrip('&mut ').startswith('std::option::Option')
+                to_res = bool(re.search(r'::(ok_or|ok_or_else|context|with_context)(::<.*>)?$', nm))
+                br = (1 - v) if (from_opt and to_res) else v
             if 'FromResidual' in nm and nm.endswith('from_residual'):
                 # the residual of `?` handed to the caller's type: Err / None
                 br = 0 if nm.startswith('<std::option::Option<') else 1
@@ -248,7 +255,7 @@ def reach_ps(b, starts, limit=60000):
             elif ('d', dl) in e: succs = [m.get(e[('d', dl)], t['else'])]
         fe = frozenset(e.items())
         for s in succs:
-            if not b.blocks[s]['cleanup']: work.append((s, fe))
+            if not b.blocks[s]['cleanup'] and s not in stop: work.append((s, fe))
     return out
 
 
@@ -696,8 +703,10 @@ def char_tables(ctx, body):
                 if key in tab and tab[key] != val: val = sorted(set(([tab[key]] if isinstance(tab[key], str) else tab[key]) + ([val] if isinstance(val, str) else val)))
                 tab[key] = val
                 enums |= {x.split('::')[0] for x in vs}
-            er = reach[t['else']]
-            err = bool(er & body.err_exits()) and not (er & body.strict_ok_exits())
+            # the fall-through may hand a None / Err to the caller's `ok_or_else(..)?` (table moved into a helper returning Option): follow the variant
+            lb = local_form(ctx, body)
+            er = reach_ps(lb, [t['else']])
+            err = bool(er & lb.err_exits()) and not (er & lb.strict_ok_exits())
             out.append(dict(tab=tab, err=err, bb=bi, enum=sorted(enums)[0] if len(enums) == 1 else None, scrutinee=t['d']))
     return out
 
@@ -729,7 +738,7 @@ def none_is_error(b, local, projs=(), depth=0):
                 for k3, b3, sw in b.uses.get(x['dst']['l'], ()):
                     if k3 != 'switch': continue
                     m = {v: t for v, t in sw['ts']}
-                    r = b.reach([m.get(0, sw['else'])])
+                    r = reach_ps(b, [m.get(0, sw['else'])])
                     res.append(('bad', 'None side of match reaches an Ok-exit') if r & oks else ('ok', 'match: None side reaches only Err-exits'))
             elif rv['k'] == 'use' and not x['dst']['p'] and rv['ops'][0]['k'] in ('copy', 'move') and rv['ops'][0]['pl']['l'] == local:
                 src = _projs(rv['ops'][0]['pl'])
@@ -800,8 +809,9 @@ def codes_rules(ctx):
             reg = b.reach([t]) - (b.reach([f]) if f is not None else set())
             rows[lit] = sorted({st['rv']['adt'].split('::')[-1] for bi, st in b.stmts() if bi in reg and st['rv']['k'] == 'agg' and 'ObjSense::' in st['rv']['adt']})
         ctx.check(rows == {'minimize': ['Minimize'], 'maximize': ['Maximize']}, R + '/sense/mapping', 'T-BRANCHFX', b.name, 'sense keywords map to %s' % rows, b.site())
-        rest = b.reach([0], stop={t for t, f, c in tab.values()})
-        ctx.check(any(st['rv']['k'] == 'agg' and st['rv']['adt'].endswith('ParseErrorReason::InvalidObjSense') for bi, st in b.stmts() if bi in rest) and not (rest & b.strict_ok_exits()), R + '/sense/unknown-is-error', 'T-TABLE', b.name, 'unknown sense is not InvalidObjSense', b.site())
+        lb = local_form(ctx, b)
+        rest = reach_ps(lb, [0], stop={t for t, f, c in tab.values()})
+        ctx.check(any(st['rv']['k'] == 'agg' and st['rv']['adt'].endswith('ParseErrorReason::InvalidObjSense') for bi, st in lb.stmts() if bi in rest) and not (rest & lb.strict_ok_exits()), R + '/sense/unknown-is-error', 'T-TABLE', b.name, 'unknown sense is not InvalidObjSense', b.site())
     b = ctx.method(R + '/var-type/anchor', 'qplib::parser::VarType', 'from_str', trait='FromStr')
     if b is not None:
         tab = literal_table(b)
@@ -810,8 +820,9 @@ def codes_rules(ctx):
             reg = b.reach([t]) - (b.reach([f]) if f is not None else set())
             rows[lit] = sorted({st['rv']['adt'].split('::')[-1] for bi, st in b.stmts() if bi in reg and st['rv']['k'] == 'agg' and 'VarType::' in st['rv']['adt']})
         ctx.check(rows == {'0': ['Continuous'], '1': ['Integer'], '2': ['Binary']}, R + '/var-type/mapping', 'T-TABLE', b.name, 'variable type codes map to %s' % rows, b.site(), table=str(rows))
-        rest = b.reach([0], stop={t for t, f, c in tab.values()})
-        ctx.check(any(st['rv']['k'] == 'agg' and st['rv']['adt'].endswith('ParseErrorReason::InvalidVarType') for bi, st in b.stmts() if bi in rest) and not (rest & b.strict_ok_exits()), R + '/var-type/unknown-is-error', 'T-TABLE', b.name, 'unknown variable type is not InvalidVarType', b.site())
+        lb = local_form(ctx, b)
+        rest = reach_ps(lb, [0], stop={t for t, f, c in tab.values()})
+        ctx.check(any(st['rv']['k'] == 'agg' and st['rv']['adt'].endswith('ParseErrorReason::InvalidVarType') for bi, st in lb.stmts() if bi in rest) and not (rest & lb.strict_ok_exits()), R + '/var-type/unknown-is-error', 'T-TABLE', b.name, 'unknown variable type is not InvalidVarType', b.site())
     # objective sense: the value that reaches Instance.sense, per ObjSense variant.  Anchored on `convert` and the field, not on a helper:
     # the mapping may sit in a helper (`convert_sense(qplib.sense)`) or in `convert` itself (`instance.set_sense(match qplib.sense {..})`).
     conv = ctx.free_fn(R + '/convert-sense/anchor', 'qplib::convert::convert')
